@@ -50,6 +50,17 @@ for prop, patch in jobs:
     verdict = "CAUGHT" if r.returncode == 1 and viol else ("MISSED" if r.returncode == 0 else "CHECK-BROKEN(%d)" % r.returncode)
     results.append((prop, name, verdict, base + " " + ",".join(classes)))
     print("%-4s %-60s %-12s %s" % results[-1], flush=True)
+    head = subprocess.run(["git", "-C", "/repo", "rev-parse", "--short", "HEAD"], stdout=subprocess.PIPE, text=True).stdout.strip()
+    if name.startswith("seeded/"):
+        mp = os.path.join(os.path.dirname(patch), "meta.json")
+        meta = json.load(open(mp))
+        meta["check_result"] = {"verdict": verdict, "caught_by": classes, "cmd": "./check %s --tier quick (VERIF_REPO=scratch worktree of /repo %s + patch.diff)" % (prop, head)}
+        json.dump(meta, open(mp, "w"), indent=1)
+    else:
+        rp = os.path.join(VERIF, "mutants", prop, "RESULTS.json")
+        res = json.load(open(rp)) if os.path.exists(rp) else {}
+        res[os.path.basename(patch)] = {"verdict": verdict, "caught_by": classes, "repo_head": head}
+        json.dump(res, open(rp, "w"), indent=1, sort_keys=True)
 subprocess.run(["git", "-C", "/repo", "worktree", "remove", "--force", scratch], stdout=subprocess.DEVNULL, stderr=subprocess.DEVNULL)
 shutil.rmtree(scratch, ignore_errors=True)
 bad = [r for r in results if r[2] != "CAUGHT"]
